@@ -422,7 +422,27 @@ class Engine:
     # attributes of opaque library objects that are modelled: observer spec function, classes that have the
     # attribute (CLSID), range of the value (a fact about every such object)
     OBJ_ATTRS = {"hour": ("tod_hour", (1, 3), 0, 24), "minute": ("tod_minute", (1, 3), 0, 60),
-                 "second": ("tod_second", (1, 3), 0, 60), "microsecond": ("tod_micro", (1, 3), 0, 1000000)}
+                 "second": ("tod_second", (1, 3), 0, 60), "microsecond": ("tod_micro", (1, 3), 0, 1000000),
+                 "days": ("td_days", (4,), None, None), "seconds": ("td_seconds", (4,), 0, 86400),
+                 "microseconds": ("td_micros", (4,), 0, 1000000), "tzinfo": (None, (1,), None, None)}
+
+    def lib_value(self, st, c):
+        """a concrete library object built from literals in the code (module constants such as
+        `epoch = datetime(1970, 1, 1, tzinfo=timezone.utc)`): a named object term plus what the observers say about it,
+        computed by the library itself at verification time"""
+        import spec.core as SC
+        reg = self.__dict__.setdefault("_libobjs", {})
+        key = repr(c.val)
+        if key not in reg:
+            reg[key] = Py.obj(z3.IntVal(1), z3.IntVal(-(1000 + len(reg))))
+        t = reg[key]
+        x = V("py", t)
+        st.assume(self.spec_apply("spec.core", "dt_us", [x]).t == SC.dt_us(c.val))
+        st.assume(self.spec_apply("spec.core", "dt_offset_us", [x]).t == SC.dt_offset_us(c.val))
+        aw = S.truthy(self.spec_apply("spec.core", "dt_aware", [x]))
+        st.assume(aw if SC.dt_aware(c.val) else z3.Not(aw))
+        self.assumptions_used.add("datetime(<literals>) module constants: observers evaluated by CPython's datetime at verification time")
+        return x
 
     def obj_attr(self, ex, st, base, attr):
         spec = self.OBJ_ATTRS.get(attr)
@@ -435,8 +455,17 @@ class Engine:
             if r is not None:
                 yield st1, r
                 continue
+            if attr == "tzinfo":
+                # None exactly for a naive datetime (fixed-offset zones: aware iff tzinfo is not None)
+                aw = S.truthy(self.spec_apply("spec.core", "dt_aware", [V("py", t)]))
+                tz = self.opaque_fn("tzinfo", t)
+                st1.assume(z3.And(Py.is_obj(tz), Py.cls(tz) == 8))
+                self.assumptions_used.add("datetime.tzinfo is None exactly for naive datetimes (tzinfo objects with utcoffset() None are not considered)")
+                yield st1, V("py", z3.If(aw, tz, Py.none))
+                continue
             v = self.spec_apply("spec.core", fname, [V("py", t)])
-            st1.assume(z3.And(v.t >= lo, v.t < hi))
+            if lo is not None:
+                st1.assume(z3.And(v.t >= lo, v.t < hi))
             self.assumptions_used.add("datetime.time / datetime.datetime objects: hour, minute, second, microsecond are in range (library invariant)")
             yield st1, v
 
